@@ -79,15 +79,9 @@ Section Top.
     - apply vloop_S in H1, H2.
       destruct H1 as [(Hh1 & Hl1 & H1)|(pl1 & hs1 & Eu1 & H1)]; destruct H2 as [(Hh2 & Hl2 & H2)|(pl2 & hs2 & Eu2 & H2)].
       + apply inspectRoot_ok in H1, H2. destruct H1 as [? ->]. destruct H2 as [? H2]. inversion H2. reflexivity.
-      + (* r1 accepted at a stop that r2 does not take: same stop condition, contradiction *)
-        exfalso. subst hints. rewrite vloop_unfold in H2.
-        pose proof H2 as H2'. clear H2'.
-        (* the loop for r2 would also have stopped *)
-        assert (Hs : vloop (S f) r2 pl [] = inspectRoot r2 pl).
-        { rewrite vloop_unfold. destruct (Nat.leb_spec (length pl) 1); [reflexivity | lia]. }
-        clear Hs. (* not needed: use determinism of the stop condition directly *)
+      + (* r1 accepted at a stop ([(0, r1)], no hints) where up() would fail for lack of hints *)
+        exfalso. subst hints.
         apply inspectRoot_ok in H1. destruct H1 as [rest ->]. destruct rest; [|cbn in Hl1; lia].
-        (* upV on a singleton without hints fails *)
         rewrite (upV_hint s hnode Hlen_node) in Eu2 by exact I. cbn in Eu2. discriminate Eu2.
       + exfalso. subst hints. apply inspectRoot_ok in H2. destruct H2 as [rest ->]. destruct rest; [|cbn in Hl2; lia].
         rewrite (upV_hint s hnode Hlen_node) in Eu1 by exact I. cbn in Eu1. discriminate Eu1.
